@@ -30,6 +30,8 @@ type Engine struct {
 	FuncDecls map[*types.Func]*ast.FuncDecl
 	AllFuncs  map[string]*ssa.Function // by String()
 	storedGlobals map[*ssa.Global]bool
+	CtxContracts   map[string]map[string]*Contract // key -> package of the contract file -> contract (only for keys with several)
+	ctxPkg         string                           // package of the function under verification
 	ghostScanned   bool
 	ghosts         []*ssa.Global
 	globalsScanned bool
@@ -107,7 +109,25 @@ func LoadEngine(repoDir string, patterns []string, depsDir string) (*Engine, err
 			}
 			for _, c := range cf.Contracts {
 				if old, dup := e.Contracts[c.Key]; dup {
-					return nil, fmt.Errorf("duplicate contract for %s (%s:%d and %s:%d)", c.Key, old.File, old.Line, c.File, c.Line)
+					// The same function or interface method may carry one contract per *verification context*: the contract
+					// in its own package is the primary one (and the one implementations are checked against); a contract
+					// for it in another package is the environment model used while verifying that package (e.g. fw/mgmt
+					// sees the table mutators as "authorised and recorded", fw/table sees their effect on the tables).
+					if old.PkgPath == c.PkgPath || (e.CtxContracts[c.Key] != nil && e.CtxContracts[c.Key][c.PkgPath] != nil) {
+						return nil, fmt.Errorf("duplicate contract for %s (%s:%d and %s:%d)", c.Key, old.File, old.Line, c.File, c.Line)
+					}
+					if e.CtxContracts == nil {
+						e.CtxContracts = map[string]map[string]*Contract{}
+					}
+					if e.CtxContracts[c.Key] == nil {
+						e.CtxContracts[c.Key] = map[string]*Contract{}
+					}
+					e.CtxContracts[c.Key][c.PkgPath] = c
+					e.CtxContracts[c.Key][old.PkgPath] = old
+					if strings.Contains(c.Key, c.PkgPath+".") {
+						e.Contracts[c.Key] = c // c lives in the package that declares the function: primary
+					}
+					continue
 				}
 				e.Contracts[c.Key] = c
 			}
@@ -270,15 +290,25 @@ func (e *Engine) contractFor(fn *ssa.Function) *Contract {
 	if fn == nil {
 		return nil
 	}
-	if c, ok := e.Contracts[fn.String()]; ok {
+	if c := e.lookupContract(fn.String()); c != nil {
 		return c
 	}
 	if o := fn.Origin(); o != nil {
-		if c, ok := e.Contracts[o.String()]; ok {
+		if c := e.lookupContract(o.String()); c != nil {
 			return c
 		}
 	}
 	return nil
+}
+
+// lookupContract: the contract for key as seen from the package of the function under verification (ctxPkg).
+func (e *Engine) lookupContract(key string) *Contract {
+	if m := e.CtxContracts[key]; m != nil {
+		if c := m[e.ctxPkg]; c != nil {
+			return c
+		}
+	}
+	return e.Contracts[key]
 }
 
 func (e *Engine) inRepo(fn *ssa.Function) bool {
@@ -314,7 +344,7 @@ func (e *Engine) ghostGlobals() []*ssa.Global {
 		sort.Strings(names)
 		for _, n := range names {
 			g, ok := sp.Members[n].(*ssa.Global)
-			if !ok || !strings.HasPrefix(n, "ghost") || !g.Pos().IsValid() {
+			if !ok || !(strings.HasPrefix(n, "ghost") || strings.HasPrefix(n, "Ghost")) || !g.Pos().IsValid() {
 				continue
 			}
 			if strings.HasPrefix(filepath.Base(e.Fset.Position(g.Pos()).Filename), "zz_verif_") {
